@@ -202,8 +202,12 @@ func main() {
 
 	ev := newEvidence(prop, *tier, seed, info)
 	var failures []Replay
-	for _, ph := range phases {
+	for pi, ph := range phases {
 		runs := ph.Runs
+		first := 0
+		if ph.Runs > 0 {
+			first = pi * 10000000 // sampled workloads: every phase explores its own sub-seeds
+		}
 		if runs > 0 {
 			runs = int(float64(runs) * *scale)
 			if runs < 1 {
@@ -221,7 +225,7 @@ func main() {
 				os.MkdirAll(rd, 0o755)
 				outs[w] = runWorker(bins[ph.Race], 0, "", "--prop", prop, "--tier", *tier, "--seed", strconv.FormatUint(seed, 10),
 					"--worker", strconv.Itoa(w), "--workers", strconv.Itoa(ph.Workers), "--runs", strconv.Itoa(runs),
-					"--budget-s", fmt.Sprint(ph.BudgetS), "--realdir", rd, "--emit-keys")
+					"--first", strconv.Itoa(first), "--budget-s", fmt.Sprint(ph.BudgetS), "--realdir", rd, "--emit-keys")
 			}(w)
 		}
 		wg.Wait()
